@@ -29,6 +29,9 @@ func main() {
 		os.Exit(2)
 	}
 	quiet()
+	if dn, err := os.OpenFile(os.DevNull, os.O_WRONLY, 0); err == nil && os.Getenv("VERIF_STDOUT") == "" {
+		os.Stdout = dn
+	}
 	f, ok := commands[os.Args[1]]
 	if !ok {
 		fmt.Fprintln(os.Stderr, "unknown command", os.Args[1])
